@@ -55,7 +55,11 @@ if meta["applies"]:
     meta["demo_mutant"] = demo(mut)
     meta["confirmed"] = ("117 passed" in meta["tests_mutant"]) and meta["demo_original"][0] == 0 and meta["demo_mutant"][0] != 0
     t0 = time.time()
+    evf = os.path.join(VERIF, "evidence", prop + ".json")
+    evb = open(evf).read() if os.path.exists(evf) else None      # evidence files must come from runs on the unchanged tree
     p = subprocess.run(["./check", prop, "--tier", tier], cwd=VERIF, capture_output=True, text=True, env=dict(os.environ, ESRV_REPO=mut))
+    if evb is not None:
+        open(evf, "w").write(evb)
     out = p.stdout + p.stderr
     meta["check_cmd"] = "ESRV_REPO=<changed copy> ./check %s --tier %s" % (prop, tier)
     meta["check_exit"] = p.returncode
